@@ -347,4 +347,17 @@ Proof.
   eapply opequiv_trans; [|apply opequiv_sym, rsem_unit; auto].
   rewrite <- map_map. apply (local_sound rho (rho_of_unit theta) pi pi_inj R). exact Hc.
 Qed.
+
+(* the same for two gate lists (used for adjacent-gate fusers: window vs replacement) *)
+Theorem tmpl_sound2 R gs gs' :
+  check_equiv2 R (map eg gs) (map eg gs') = true ->
+  forallb gate_ok gs = true -> forallb gate_ok gs' = true ->
+  csem (map (fun g => rsem (inst theta pi g)) gs) ≃ csem (map (fun g => rsem (inst theta pi g)) gs').
+Proof.
+  intros Hc Hok Hok'.
+  eapply opequiv_trans; [apply rsem_units; auto|].
+  eapply opequiv_trans; [|apply opequiv_sym, rsem_units; auto].
+  rewrite <- !(map_map eg (sgate rho pi)).
+  apply (local_sound2 rho (rho_of_unit theta) pi pi_inj R). exact Hc.
+Qed.
 End Main.
